@@ -177,3 +177,21 @@ def rng_calls(prog: Program, f: Func) -> List[ast.Call]:
                 if q2 and q2.endswith("default_rng"):
                     out.append(n)
     return out
+
+
+def name_mutations(fn: ast.AST) -> List[Tuple[ast.AST, str, str]]:
+    """In-place mutations whose receiver is a bare name: x.append(..), x[i] = .., x[i] += .., del x[i],
+    random.shuffle(x).  Returns (node, name, description)."""
+    out = []
+    for n in astx.walk_own(fn):
+        if isinstance(n, ast.Call) and isinstance(n.func, ast.Attribute) and n.func.attr in MUTATORS and isinstance(n.func.value, ast.Name):
+            out.append((n, n.func.value.id, f"{n.func.value.id}.{n.func.attr}(...)"))
+        elif isinstance(n, ast.Call) and isinstance(n.func, ast.Attribute) and n.func.attr == "shuffle" and n.args and isinstance(n.args[0], ast.Name):
+            out.append((n, n.args[0].id, f"shuffle({n.args[0].id})"))
+        elif isinstance(n, (ast.Assign, ast.AugAssign, ast.Delete)):
+            tg = n.targets if isinstance(n, (ast.Assign, ast.Delete)) else [n.target]
+            for t in tg:
+                for sub in ast.walk(t):
+                    if isinstance(sub, ast.Subscript) and isinstance(sub.ctx, (ast.Store, ast.Del)) and isinstance(sub.value, ast.Name):
+                        out.append((n, sub.value.id, f"store into {sub.value.id}[...]"))
+    return out
